@@ -1,5 +1,6 @@
 """C17: textual name API: validation, display, suffix algebra."""
 import itertools
+import dns
 import re
 
 SLICE = "NAMENEW (Name::new, Display, re-creation, new_unchecked), SUFFIX (is_subdomain_of, without, is_link_local)"
@@ -51,6 +52,16 @@ def cases(rng, tier):
         for tup in itertools.product([b"a", b"b"], repeat=n):
             pool.append(list(tup))
     extra = [[b"living-room-speaker1", b"local"], [b"_srv", b"_tcp", b"local"], [b"a" * 63], [b"b", b"a" * 63], [b"x", b"local"], [b"LOCAL"], [b"LoCaL"], [b"local", b"x"], [b"locale"], [b"loca"], [b"\xff", b"local"], [b"a", b"Local"]]
+    # special-use and reverse-mapping names, each also with a label in front and with its last label removed
+    wk = []
+    for nm in dns.WELL_KNOWN_NAMES:
+        wk += [nm, [b"x"] + nm] + ([nm[:-1]] if len(nm) > 1 else [])
+    for a in wk:
+        for b in wk[::7] + [[b"local"], [b"arpa"]]:
+            out.append("SUFFIX %s %s" % (" ".join(["%x" % len(a)] + [x.hex() for x in a]), " ".join(["%x" % len(b)] + [x.hex() for x in b])))
+    for t in dns.WELL_KNOWN_TEXTS:
+        out.append("NAMENEW " + t.encode().hex())
+        out.append("NAMENEW " + ("x." + t + ".").encode().hex())
     pool2 = pool + extra
     for a in pool2:
         for b in pool2:
